@@ -10,10 +10,15 @@
 EXTENDS WfParser, WfEval, WfJson, Json
 CONSTANTS MaxLen, MaxD
 VARIABLES shape, d, side      \* side = "right": every parenthesis holds a chain whose right operand carries the rest
+                              \* side = "prec": the whole shape is the last operand of  b1 or b1 and <shape>  (operators
+                              \*   and their precedence recursion are not nesting)
+                              \* side = "call0": the innermost expression is  z0() >= 0 , a call with an empty argument
+                              \*   list (one more level)
 AB == TArr(TBool)
 Fn(n, s, pt, rt) == [name |-> n, sem |-> s, params |-> <<[kind |-> "Field", ty |-> pt]>>, opts |-> <<>>, ret |-> rt]
 Sch == [fields |-> <<[name |-> "b1", ty |-> TBool, opt |-> TRUE], [name |-> "vb", ty |-> AB, opt |-> TRUE]>>,
-        funcs |-> <<Fn("bb", "bb", TBool, TBool), Fn("ba", "ba", TBool, AB), Fn("aa", "aa", AB, AB)>>,
+        funcs |-> <<Fn("bb", "bb", TBool, TBool), Fn("ba", "ba", TBool, AB), Fn("aa", "aa", AB, AB),
+                    [name |-> "ctxfn", sem |-> "ctxfn", params |-> <<>>, opts |-> <<>>, ret |-> TInt]>>,
         lists |-> <<>>, nne |-> TRUE]
 Ctxs == <<[sch |-> 1, vals |-> <<VBool(TRUE), VArr(TBool, <<VBool(TRUE), VBool(FALSE)>>)>>, lists |-> <<>>],
           [sch |-> 1, vals |-> <<VBool(FALSE), VArr(TBool, <<>>)>>, lists |-> <<>>],
@@ -24,8 +29,9 @@ RP == [k |-> "rp"]
 (* Build(s, i, vec): tokens realising constructs s[i..] around the base; vec = an array is wanted here.  *)
 (* Returns <<>> if the shape is not realisable.                                                          *)
 RECURSIVE Build(_, _, _)
+Call0 == <<Id("ctxfn"), LP, RP, [k |-> "ord", v |-> "ge", a |-> 1], [k |-> "int", v |-> IntOfNat(0), txt |-> "0"]>>
 Build(s, i, vec) ==
-  IF i > Len(s) THEN IF vec THEN <<Id("vb")>> ELSE <<Id("b1")>>
+  IF i > Len(s) THEN IF vec THEN <<Id("vb")>> ELSE IF side = "call0" THEN Call0 ELSE <<Id("b1")>>
   ELSE LET c == s[i] IN
        IF c = "p" THEN LET x == Build(s, i + 1, vec) IN
                        IF x = <<>> THEN <<>>
@@ -43,17 +49,27 @@ Build(s, i, vec) ==
             ELSE LET x == Build(s, i + 1, FALSE) IN IF x = <<>> THEN <<>> ELSE <<Id("bb"), LP>> \o x \o <<RP>>
 Shapes == UNION {[1..n -> {"p", "n", "q", "c"}] : n \in 0..MaxLen}
 HasParen(s) == \E i \in 1..Len(s) : s[i] = "p"
-Init == /\ side \in {"plain", "right"}
-        /\ shape \in {s \in Shapes : Build(s, 1, FALSE) # <<>> /\ (side = "right" => HasParen(s))}
+Init == /\ side \in {"plain", "right", "prec", "call0"}
+        /\ shape \in {s \in Shapes : Build(s, 1, FALSE) # <<>> /\ (side = "right" => HasParen(s))
+                                    /\ (side \in {"prec", "call0"} => Len(s) <= 3)}
         /\ d \in 0..MaxD
 Next == FALSE /\ UNCHANGED <<shape, d, side>>
 Spec == Init /\ [][Next]_<<shape, d, side>>
-Toks == Build(shape, 1, FALSE)
+Toks == IF side = "prec"
+        THEN <<Id("b1"), [k |-> "lop", v |-> "or", a |-> 0], Id("b1"), [k |-> "lop", v |-> "and", a |-> 1]>> \o Build(shape, 1, FALSE)
+        ELSE Build(shape, 1, FALSE)
+(* with call0 the base adds a level unless the innermost position wants an array (then the base is the field vb) *)
+RECURSIVE EndsVec(_, _, _)
+EndsVec(s, i, vec) == IF i > Len(s) THEN vec
+                      ELSE IF s[i] \in {"p", "n"} THEN EndsVec(s, i + 1, vec)
+                      ELSE IF s[i] = "q" THEN EndsVec(s, i + 1, TRUE)
+                      ELSE IF vec THEN EndsVec(s, i + 1, i % 2 # 0) ELSE EndsVec(s, i + 1, FALSE)
+Depth == Len(shape) + (IF side = "call0" /\ ~EndsVec(shape, 1, FALSE) THEN 1 ELSE 0)
 CounterIsNesting ==
   LET r == ParseFilter(Toks, Sch, d)
       free == ParseFilter(Toks, Sch, 1000) IN
-  /\ free.ok /\ NestLogical(free.node) = Len(shape)
-  /\ r.ok = (Len(shape) <= d)
+  /\ free.ok /\ NestLogical(free.node) = Depth
+  /\ r.ok = (Depth <= d)
 Vector == LET r == ParseFilter(Toks, Sch, d) IN
   IF r.ok THEN [ev |-> "filter", sch |-> 1, max |-> d, ts |-> Toks, ok |-> TRUE, ast |-> AstJson(r.node),
                 runs |-> Strict([n \in 1..Len(Ctxs) |-> [ctx |-> n, out |-> "ok", res |-> EvalFilter(r.node, Ctxs[n], Sch)]]), uses |-> <<>>]
